@@ -532,7 +532,9 @@ func redactPipelineStage(stage interface{}, redactFieldNames bool, keyPath []str
 							newSubMap.Set(redactedSubK, redactArrayValues(subVTyped, redactFieldNames, inSearchStage, isSelectivelyRedactable, append(newKeyPath, subK)))
 						default:
 							// pass the sub-key as well: the placeholder class depends on it ($binary.base64)
-							newSubMap.Set(redactedSubK, redactScalarValue([]string{k, subK}, subV, inSearchStage, false))
+							// selective mode: the field names above this operator decide as well
+							selective := reMatchesAnyKeyInPath(&newKeyPath, redactedFieldsRegexp)
+							newSubMap.Set(redactedSubK, redactScalarValue([]string{k, subK}, subV, inSearchStage, selective))
 						}
 					}
 					newMap.Set(redactedKey, newSubMap)
